@@ -143,7 +143,10 @@ def ops11 : List (String × Op) := [
     .ok (exceptJ outJ (cpApr fops fconsts cfg alg (scripted dirs) argsortDesc X init))),
   -- argument validation at exact rationals
   ("c11_validate", fun j => do
-    let alg ← field j "alg" >>= decAlg
+    let algS ← field j "alg" >>= asStr
+    if !(["mu", "pdnr", "pqnr"].contains algS.toLower) then
+      return Json.mkObj [("accept", Json.bool false)]
+    let alg ← decAlg (Json.str algS.toLower)
     let X ← field j "data" >>= decData scQ
     let init ← field j "init" >>= decKt scQ
     let cfg ← field j "cfg" >>= decCfg scQ
